@@ -37,10 +37,13 @@ A hierarchy is a JSON model
                                      for the *final* tree, whatever was asked before):
          {"type": "late"}                 needs "lib": the library part is loaded only after PKG has been loaded and
                                           every PKG class has been queried
-         {"type": "replace", "target": j, "bases": [...], "members": [k0..k3]}
+         {"type": "replace", "target": j, "bases": [...], "members": [k0..k3], "also": [src, dst] (optional)}
                                           after everything was loaded and queried, class Cj is replaced in its module
                                           (`module.set_member("Cj", new_class)`) by a new class with these bases
-                                          (indices < j) and members (codes 0-3); every class is queried again
+                                          (indices < j) and members (codes 0-3); every class is queried again.
+                                          "also": the member object NAMES[src] of the new class is registered a second time
+                                          under the key NAMES[dst] (`new.set_member(dst, new.members[src])`, the tree API's
+                                          `run = _run_impl`): CPython's class __dict__ has both names
     }
 
 kind "one": one module, bases among classes < i (plus externals), visited with griffe.visit.
@@ -398,6 +401,11 @@ def class_path(case, i: int) -> str:
     return f"m.{local}"
 
 
+def target_name(case, definer: int, name: str) -> str:
+    """Name of the object registered under key `name` in class `definer` (differs only for a second key of a "replace" history)."""
+    return (case.get("alias_keys") or {}).get(str(definer), {}).get(name, name)
+
+
 def final_case(case):
     """The model of the tree after the history has been played (only "replace" changes the hierarchy)."""
     hist = case.get("history")
@@ -407,6 +415,10 @@ def final_case(case):
     out = dict(case)
     out["bases"] = [list(hist["bases"]) if i == j else bs for i, bs in enumerate(case["bases"])]
     out["members"] = [list(hist["members"]) if i == j else row for i, row in enumerate(case["members"])]
+    if hist.get("also"):
+        src, dst = hist["also"]
+        out["members"][j][dst] = out["members"][j][src]  # same kind of attribute under a second name
+        out["alias_keys"] = {str(j): {NAMES[dst]: NAMES[src]}}
     if case.get("init"):
         out["init"] = [-1 if i == j else v for i, v in enumerate(case["init"])]
     if case.get("via"):
